@@ -68,6 +68,6 @@ def handle (line : String) : String :=
         | _, _, _ => "bad-op"
       | _ => "bad-op"
 
-def main : IO Unit := PysphVerif.Driver.loopPure handle
-
 end PysphVerif.Driver.C19
+
+def main : IO Unit := PysphVerif.Driver.loopPure PysphVerif.Driver.C19.handle
